@@ -48,12 +48,21 @@ THEOREMS = [
     dict(name="Snow.C20.visf_eq_shelf_before_window", clause="lemma on an ABSTRACT loop (body an arbitrary function of q_e): a VISF stage and the shelf stage coincide up to the first step inside the window", strength="lemma (abstract loop; the run-level clause is visf_run1D_eq_shelf*)"),
     dict(name="Snow.C20.visf_eq_shelf_empty_window", clause="lemma on the abstract loop: empty window, whole stage", strength="lemma (abstract loop; the run-level clause is visf_run1D_eq_shelf*)"),
     dict(name="Snow.C20.window_model_is_1D_model", clause="link: the evaporative flux Snow.qEvap of the executable 0D/1D model IS the window model's q_e (same window test, same sign), every numeric instance", strength="full"),
-    dict(name="Snow.C20.window_model_is_2D_model", clause="link: S2D.qEvap of the executable 2D model IS the window model's q_e column by column", strength="full"),
+    dict(name="Snow.C20.window_model_is_2D_model", clause="link: S2D.qEvap of the executable 2D model IS the window model's q_e column by column, at the model's own vapour flux (EvapLink.flux2D: Evap2D.vapourFlux at pSolid/pLiquid of the top node)", strength="full"),
     dict(name="Snow.C20.window_model_qE", clause="the q_e of the window theorems is the same qEWith at the generated flux", strength="full"),
     dict(name="Snow.C20.qEWith_zero_outside", clause="q_e (any flux) is 0 outside VISF / outside the window", strength="full"),
-    dict(name="Snow.C20.visf_run1D_eq_shelf", clause="REAL 1D model: a VISF run whose window is met at no time equals the shelf run (exception, statistics, every history row of run1DOn), every numeric instance", strength="full"),
+    dict(name="Snow.C20.visf_run1D_eq_shelf_sampled", clause="REAL 1D model: a VISF run whose window is met at none of the SAMPLED step times (dt*i; dt*iEnd + dt*i after nucleation at iEnd) equals the shelf run - exception, statistics, every history row of run1DOn - every numeric instance", strength="full"),
+    dict(name="Snow.C20.visf_run1D_eq_shelf_window_beyond", clause="REAL 1D model: window start beyond the last sampled time => whole VISF run = shelf run", strength="full"),
+    dict(name="Snow.C20.visf_run1D_eq_shelf", clause="corollary: window met at NO real time (for a VISF input this means an empty window)", strength="lemma"),
     dict(name="Snow.C20.visf_run1D_eq_shelf_empty_window", clause="REAL 1D model: t_vac_duration <= 0 => run1D(VISF) = run1D(shelf)", strength="full"),
     dict(name="Snow.C20.visf_cool1D_eq_shelf_before_window", clause="REAL 1D model: while dt*i <= t_vac_start*3600 the cooling loop (stop index, field, hazard, saved rows) is that of the shelf run - identical up to step n", strength="partial"),
+    dict(name="Snow.C20.fluxN_zero_at_equilibrium", clause="flux laws for ANY value of pi (Gen.FU.N_w, the run models' function): zero at equilibrium", strength="full"),
+    dict(name="Snow.C20.fluxN_pos_iff", clause="... positive iff p_vap > p_vac (pi > 0)", strength="full"),
+    dict(name="Snow.C20.fluxN_mono_pvap", clause="... strictly increasing in p_vap", strength="full"),
+    dict(name="Snow.C20.fluxN_scales_kappa", clause="... closed form in kappa", strength="full"),
+    dict(name="Snow.C20.fluxN_strictMono_kappa", clause="... strictly increasing in kappa on (0,1]", strength="full"),
+    dict(name="Snow.C20.run_model_flux", clause="Evap.vapourFlux (0D/1D), Evap2D.vapourFlux pi (2D) and Gen.vapour_flux are Gen.FU.N_w at pi = piDouble / the input pi / Real.pi", strength="full"),
+    dict(name="Snow.C20.evap_cools_iff_1D", clause="REAL 1D model: inside the window Snow.qEvap <= 0 iff p_vap >= p_vac", strength="full"),
     dict(name="Snow.C20.evap_cools_iff", clause="inside the window q_e <= 0 iff p_vap >= p_vac (T_l = T_v > 0)", strength="full"),
     dict(name="monitored:triple_point_coincide", clause="the two curves coincide at the triple point (273.16 K): NO theorem, evaluated at Float on every run (relative gap <= 1e-6)", strength="monitored"),
     dict(name="monitored:p_ice_le_p_liq_below", clause="p_ice <= p_liq below the triple point: NO theorem, evaluated on the 0.01 K grid 123-273.15 K on every run", strength="monitored"),
@@ -71,10 +80,17 @@ ASSUMPTIONS = [
     "evaporation coefficient in (0,1], T > 0, m_water, k_B, dHe > 0 (flux theorems)",
     "triple_point_coincide and p_ice_le_p_liq_below are numeric facts about exp/log at specific reals: NOT proved, "
     "evaluated at Float on a 0.01 K grid on every run (monitored test clause)",
-    "run-level clause 'outside the window a VISF run is identical to the shelf run' is proved by induction for a loop "
-    "whose body is an ARBITRARY function of (q_e, step index, state): that the configuration enters the 1D loop body "
-    "only through q_e is the modelling assumption, checked on real paired 1D runs (bitwise prefix / whole-run "
-    "identity); the 2D loops have the same window code but are not run here (2D model: another work package)",
+    "run-level clause 'outside the window a VISF run is identical to the shelf run': proved on the REAL 1D model "
+    "(run1DOn) when the window is met at none of the sampled step times dt*i / dt*iEnd + dt*i (so also for a window "
+    "beyond the process or between two samples) - visf_run1D_eq_shelf_sampled, _window_beyond, _empty_window; the "
+    "prefix before a window that does open is proved for the cooling loop only (visf_cool1D_eq_shelf_before_window); "
+    "the solidification-stage prefix and the 2D runs have no run-level theorem (monitored: real 1D pairs are compared; "
+    "2D runs are not executed by this check) - for 2D only the q_e link and the q_e call-site ties are proved",
+    "the abstract-loop theorems (runStage, body an arbitrary function of q_e) are kept as lemmas",
+    "the flux laws are proved for Gen.FU.N_w with ANY positive value of pi; the run models' flux functions are that "
+    "definition at pi = Evap.piDouble (0D/1D) resp. the input pi (2D), for every numeric instance (GenTie/Evap)",
+    "real paired runs are compared only when BOTH runs complete (nucleation and 90 % solidification within t_tot): a "
+    "run that raises publishes no arrays, so the run-level comparisons say nothing about such runs",
     "real runs use a taller vial (height 0.03-0.04 m) and fast programs so that every step is recorded",
 ]
 RULE = ("(a) batches of random (T, p_vac, p_vap, kappa, m, k_B, T_l, T_v) incl. T_l = T_v, p_vap = p_vac, kappa = 1; "
@@ -94,8 +110,10 @@ LEVEL_TEXT = (
     "increasing on its whole validity range [123,332] K; flux zero at equilibrium, "
     "positive iff p_vap > p_vac, strictly increasing in p_vap, closed form and strict monotonicity in kappa on (0,1]; "
     "q_e is -N_w dHe exactly for VISF strictly inside the window and 0 otherwise; outside the window the VISF step of "
-    "the top node equals the shelf step; inside it q_e <= 0 iff p_vap >= p_vac; the run models' qEvap (1D, 2D) are this "
-    "q_e, and on the real 1D model a VISF run whose window is not met equals the shelf run. NOT proved, only evaluated on every run (test): coincidence of the two curves at "
+    "the top node equals the shelf step; inside it q_e <= 0 iff p_vap >= p_vac (also on the real 1D model's qEvap); the flux "
+    "laws hold for any positive value of pi, hence for the run models' own flux functions; the run models' qEvap (1D, "
+    "2D) are this q_e at their flux, and on the real 1D model a VISF run whose window is met at none of the sampled "
+    "step times equals the shelf run. Partial: the prefix before an opening window (cooling loop only). NOT proved, only evaluated on every run (test): coincidence of the two curves at "
     "the triple point (rel. 1e-6), p_ice <= p_liq on the 0.01 K grid below 273.15 K; 2D run-level identity.")
 
 
@@ -113,8 +131,8 @@ import gentie  # noqa: E402
 THEOREMS = THEOREMS + [
     dict(name="Snow.GenTie.S1D.q_e", clause="1D cooling loop: generated `q_e = -N_w*dHe` = the model's qEvap inside the window", strength="tie"),
     dict(name="Snow.GenTie.S1D.solid_q_e", clause="1D solidification loop: generated `q_e = -N_w*dHe` = the model's qEvap inside the window", strength="tie"),
-    dict(name="Snow.GenTie.S2D.q_e", clause="2D cooling loop: generated `q_e = -N_w*dHe` = S2D.qEvap inside the window", strength="tie"),
-    dict(name="Snow.GenTie.S2D.solid_q_e", clause="2D solidification loop: generated `q_e = -N_w*dHe` = S2D.qEvap inside the window", strength="tie"),
+    dict(name="Snow.GenTie.S2D.q_e", clause="2D cooling loop: generated `q_e = -N_w*dHe` with N_w := the model's vapour flux at the top node (S2D fluxAt) = S2D.qEvap inside the window", strength="tie"),
+    dict(name="Snow.GenTie.S2D.solid_q_e", clause="2D solidification loop: generated `q_e = -N_w*dHe` with N_w := the model's vapour flux at the top node = S2D.qEvap inside the window", strength="tie"),
 ]
 extra_lean_targets = list(globals().get("extra_lean_targets", [])) + [
     "SnowProofs.Props.GenTie.Evap", gentie.module("1D"), gentie.module("2D")]
@@ -122,6 +140,7 @@ extra_lean_targets = list(globals().get("extra_lean_targets", [])) + [
 
 def regenerate():
     translate.regenerate_evap()
+    gentie.regenerate("Utils")
     gentie.regenerate("1D")
     gentie.regenerate("2D")
 
